@@ -78,14 +78,14 @@ def report_panic(ctx, pn, where):
         ctx.note("panic in code under test (reported by the C07 check): %s" % json.dumps(pn)[:300])
 
 
-def walks_and_validate(ctx, label, tags, walks, plies, shards, probe_every, illegal_pct=10, timeout=1500):
+def walks_and_validate(ctx, label, tags, walks, plies, shards, probe_every, illegal_pct=10, timeout=1500, undo_pct=0):
     """record seeded walks on the implementation and validate each trace shard with TLC"""
     keys = ctx.keys()
 
     def one(i):
         tr = os.path.join(ctx.work, "%s-%d.ndjson" % (label, i))
         h = ctx.harness(["record-walk", "--seed", ctx.seed, "--shard", i, "--walks", walks, "--plies", plies,
-                         "--tags", tags, "--probe-every", probe_every, "--illegal-pct", illegal_pct, "--out", tr])
+                         "--tags", tags, "--probe-every", probe_every, "--illegal-pct", illegal_pct, "--undo-pct", undo_pct, "--out", tr])
         res = ctx.tlc("ChessTrace", "ChessTrace.cfg", env={"VERIF_TRACE": tr, "VERIF_KEYS": keys},
                       workers=1, deque=True, timeout=timeout, name="%s-%d" % (label, i))
         return i, tr, h, res
@@ -164,7 +164,7 @@ def board_pipeline(ctx, bfs, walks, families=()):
         emit_and_replay(ctx, "Families", cfg, env, label, pe)
     for w in walks:
         walks_and_validate(ctx, w["label"], w["tags"], w["walks"], w["plies"], w["shards"], pe * 2,
-                           illegal_pct=w.get("illegal_pct", 10))
+                           illegal_pct=w.get("illegal_pct", 10), undo_pct=w.get("undo_pct", 0))
     ctx.assumptions += [
         "TLC 1.8 evaluates the specification correctly",
         "layer R (spec/Chess.tla) is the rules of chess: checked against published perft path counts and colour symmetry by spec/SelfTest.tla",
